@@ -624,7 +624,9 @@ func scModSelfStart(ps ParamSet, tmpls []Template, o AlphaOpts, depth, blocks, m
 	return sc
 }
 
+var tModGap2 = Template{Name: "modgap2", Consumer: "C1", Service: "a", Providers: []string{"P1", "P2"}, Cap: 5, Timeout: 2, Repeated: true, Freq: 3, Total: 3, Module: ModOther, Threshold: 2}
+
 func modSelfStartRun(o []Oracle, mon MonFlags, d, b, m int) RunSpec {
-	return RunSpec{Name: "mod-start-in-response-callback", Sc: withFunds(scModSelfStart(paramSet("0.1", "0.001"), []Template{tModGap, tMod2},
+	return RunSpec{Name: "mod-start-in-response-callback", Sc: withFunds(scModSelfStart(paramSet("0.1", "0.001"), []Template{tModGap, tModGap2},
 		AlphaOpts{RespKinds: []string{"ok"}, ModOps: []string{"mpause", "mstart"}}, d, b, m), 40, 5), Oracles: o, Mon: mon}
 }
